@@ -40,6 +40,13 @@ pub fn par_same<T: Sync, R: PartialEq + Send + Sync + std::fmt::Debug>(items: &[
                     let stride = [1usize, 7, 11, 13, 17, 19, 23, 29][(t + r) % 8];
                     let stride = if n % stride == 0 { 1 } else { stride };
                     let mut i = (t * 7919 + r * 104729) % n;
+                    // odd rounds: all threads walk the items in the SAME order from the same start
+                    // line, so that the same input is often being processed by several threads
+                    let (stride, lockstep) = if r % 2 == 1 { (1, true) } else { (stride, false) };
+                    if lockstep {
+                        i = 0;
+                        barrier.wait();
+                    }
                     for _ in 0..n {
                         let got = f(&items[i]);
                         if got != expected[i] {
@@ -128,7 +135,12 @@ fn run_one(p: &ParCase, engine: Engine) -> ExecOut {
 pub fn exec_par(rep: &mut Report, prop: &str, batch: &[Pre], engine: Engine) {
     let elig: Vec<ParCase> = batch
         .iter()
-        .filter(|p| matches!(p.rr.outcome, Outcome::Value(_)) && matches!(p.ir.ran, Ran::Ok(_)) && !p.rr.neg_ldabs && p.case.helpers.is_empty() && p.case.prog.len() <= 8 * 4096)
+        .filter(|p| {
+            let value = matches!(p.rr.outcome, Outcome::Value(_)) && matches!(p.ir.ran, Ran::Ok(_));
+            // error paths too, for the interpreter (refused accesses, call depth): the error must be the same
+            let refused = engine == Engine::Interp && matches!(p.rr.outcome, Outcome::Oob { .. } | Outcome::Misaligned { .. } | Outcome::DepthExceeded { .. }) && matches!(p.ir.ran, Ran::Err(_));
+            (value || refused) && !p.rr.neg_ldabs && p.case.helpers.is_empty() && p.case.prog.len() <= 8 * 4096
+        })
         .map(|p| ParCase { case: &p.case, pkt_mask: &p.rr.pkt_mask, mbuff_mask: &p.rr.mbuff_mask })
         .collect();
     if elig.is_empty() || cfg!(miri) {
